@@ -1,6 +1,8 @@
 (** C44 property theorems (nothing else lives here; each is closed by [exact]).
-    Model: coq/C44/Model.v (hand-written from twisted/spread/banana.py).  In the model
-    BananaError is [ValueError], NotImplementedError is [TypeError], KeyError is [IndexError]. *)
+    Model: coq/C44/Model.v (hand-written from twisted/spread/banana.py).  [lim] is the prefix limit
+    (Banana.setPrefixLimit; 64 by default), the same on both peers; it bounds the base-128 digits in
+    front of a type byte and, as 2^(7 lim) - 1 = [largest_long lim], the integers that are sent.
+    In the model BananaError is [ValueError], NotImplementedError is [TypeError], KeyError is [IndexError]. *)
 From Coq Require Import List NArith ZArith Bool.
 From TwLib Require Import PyInt.
 From C44 Require Import Model Proofs.
@@ -13,85 +15,83 @@ Theorem b1282int_int2b128 : forall n : N,
 Proof. intros n. exact (conj (from_b128 n) (b128_digits n)). Qed.
 Print Assumptions b1282int_int2b128.
 
-(** segmentation invariance for EVERY byte stream (well-formed or not) and every way of cutting it
-    into non-empty deliveries: same expressions delivered in the same order, same exception (if
-    any), and - when nothing was raised - the same parser state *)
-Theorem decode_any_split : forall (pb : bool) (chunks : list (list N)),
+(** segmentation invariance for EVERY byte stream (well-formed or not), every prefix limit and every
+    way of cutting the stream into non-empty deliveries: same expressions delivered in the same
+    order, same exception (if any), and - when nothing was raised - the same parser state *)
+Theorem decode_any_split : forall (lim : N) (pb : bool) (chunks : list (list N)),
   Forall (fun c => c <> []) chunks ->
-  let a := feed_all pb init chunks in
-  let b := feed pb init (concat chunks) in
+  let a := feed_all lim pb init chunks in
+  let b := feed lim pb init (concat chunks) in
   st_outs a = st_outs b /\ st_err a = st_err b /\
   (st_err a = None -> st_stack a = st_stack b /\ st_buf a = st_buf b).
 Proof. exact any_split. Qed.
 Print Assumptions decode_any_split.
 
 (** a stream of well-formed expressions (any nesting depth, any length), encoded back to back
-    and delivered in ANY segmentation, is decoded to exactly those expressions, with nothing left
-    in the buffer, no open list and no exception; with and without the pb vocabulary *)
-Theorem decode_encode_any_split : forall (pb : bool) (es : list sexp) (b : list N) (chunks : list (list N)),
-  Forall wf es -> encode_all pb es = Ok b ->
+    and delivered in ANY segmentation to a peer with the SAME prefix limit (any limit >= 1), is
+    decoded to exactly those expressions, with nothing left in the buffer, no open list and no
+    exception; with and without the pb vocabulary.  [wf lim e]: ints within +-(2^(7 lim) - 1),
+    strings and lists within SIZE_LIMIT and with a length below 128^lim, floats of 8 bytes *)
+Theorem decode_encode_any_split :
+  forall (lim : N) (pb : bool) (es : list sexp) (b : list N) (chunks : list (list N)),
+  1 <= lim -> Forall (wf lim) es -> encode_all lim pb es = Ok b ->
   concat chunks = b -> Forall (fun c => c <> []) chunks ->
-  let s := feed_all pb init chunks in
+  let s := feed_all lim pb init chunks in
   st_outs s = es /\ st_err s = None /\ st_stack s = [] /\ st_buf s = [].
-Proof.
-  intros pb es b chunks W E C F s.
-  destruct (any_split pb chunks F) as (H1 & H2 & H3).
-  rewrite C, feed_whole, (run_encoded_all pb es b W E []) in H1, H2, H3.
-  cbn in H1, H2, H3. destruct (H3 H2) as [H4 H5]. subst s. auto.
-Qed.
+Proof. exact roundtrip_any_split. Qed.
 Print Assumptions decode_encode_any_split.
+
+(** an integer is accepted by the encoder IF AND ONLY IF it needs at most [lim] base-128 digits -
+    exactly the integers a peer with the same limit will read *)
+Theorem int_sent_iff_it_fits_the_prefix : forall (lim : N), 1 <= lim -> forall (pb : bool) (z : Z),
+  (exists b, encode lim pb (SInt z) = Ok b) <-> blen (b128 (Z.abs_N z)) <= lim.
+Proof. exact int_encodable_iff_digits. Qed.
+Print Assumptions int_sent_iff_it_fits_the_prefix.
 
 (** a HISTORY of sendEncoded calls on one connection, some of which are refused (BananaError, at
     any nesting position of the offending element): the transport receives exactly the
     concatenation of the encodings of the accepted expressions - a refusal writes nothing and
     leaves nothing behind for the next call *)
-Theorem encode_sequence : forall (pb : bool) (es : list sexp),
-  encode_all pb (filter (accepts pb) es) = Ok (send_all pb es).
+Theorem encode_sequence : forall (lim : N) (pb : bool) (es : list sexp),
+  encode_all lim pb (filter (accepts lim pb) es) = Ok (send_all lim pb es).
 Proof. exact encode_sequence_lemma. Qed.
 Print Assumptions encode_sequence.
 
 (** ... and the receiver, under any segmentation, gets exactly the accepted expressions, in order *)
-Theorem sender_history_roundtrip : forall (pb : bool) (es : list sexp) (chunks : list (list N)),
-  Forall wf (filter (accepts pb) es) -> concat chunks = send_all pb es -> Forall (fun c => c <> []) chunks ->
-  let s := feed_all pb init chunks in
-  st_outs s = filter (accepts pb) es /\ st_err s = None /\ st_stack s = [] /\ st_buf s = [].
+Theorem sender_history_roundtrip : forall (lim : N), 1 <= lim -> forall (pb : bool) (es : list sexp) (chunks : list (list N)),
+  Forall (wf lim) (filter (accepts lim pb) es) -> concat chunks = send_all lim pb es -> Forall (fun c => c <> []) chunks ->
+  let s := feed_all lim pb init chunks in
+  st_outs s = filter (accepts lim pb) es /\ st_err s = None /\ st_stack s = [] /\ st_buf s = [].
 Proof. exact sender_history. Qed.
 Print Assumptions sender_history_roundtrip.
 
 (** every well-formed expression is accepted by the encoder *)
-Theorem wellformed_is_encodable : forall pb e, wf e -> exists b, encode pb e = Ok b.
+Theorem wellformed_is_encodable : forall lim pb e, wf lim e -> exists b, encode lim pb e = Ok b.
 Proof. exact encode_total. Qed.
 Print Assumptions wellformed_is_encodable.
 
 (** values outside the limits are refused when encoding (BananaError, nothing written) *)
-Theorem out_of_range_refused_on_encode : forall pb z l s,
-  ((z < - LARGEST_LONG \/ LARGEST_LONG < z)%Z -> encode pb (SInt z) = Err ValueError) /\
-  (SIZE_LIMIT < blen l -> encode pb (SList l) = Err ValueError) /\
-  (SIZE_LIMIT < blen s -> encode false (SStr s) = Err ValueError).
-Proof.
-  intros pb z l s.
-  exact (conj (encode_refuses_int pb z) (conj (encode_refuses_long_list pb l) (encode_refuses_long_str s))).
-Qed.
+Theorem out_of_range_refused_on_encode : forall lim pb z l s,
+  ((z < - largest_long lim \/ largest_long lim < z)%Z -> encode lim pb (SInt z) = Err ValueError) /\
+  (SIZE_LIMIT < blen l -> encode lim pb (SList l) = Err ValueError) /\
+  (SIZE_LIMIT < blen s -> encode lim false (SStr s) = Err ValueError).
+Proof. exact refusals_on_encode. Qed.
 Print Assumptions out_of_range_refused_on_encode.
 
-(** oversized prefixes (more than 64 digit bytes, with or without a type byte yet) and list /
+(** oversized prefixes (more than [lim] digit bytes, with or without a type byte yet) and list /
     string lengths above SIZE_LIMIT are refused when decoding *)
-Theorem oversized_prefix_or_length_refused_on_decode : forall pb digits,
+Theorem oversized_prefix_or_length_refused_on_decode : forall lim pb digits,
   forallb (fun d => d <? 128) digits = true ->
-  (PREFIX_LIMIT < blen digits ->
+  (lim < blen digits ->
      forall tl, (tl = [] \/ exists ty rest, tl = ty :: rest /\ 128 <= ty) ->
-     step pb (digits ++ tl) = Fail ValueError) /\
-  (blen digits <= PREFIX_LIMIT -> SIZE_LIMIT < from_le128 digits ->
-     forall ty rest, (ty = LIST \/ ty = STRING) -> step pb (digits ++ ty :: rest) = Fail ValueError).
-Proof.
-  intros pb digits D. split.
-  - intros L tl T. exact (step_refuses_long_prefix pb digits tl D L T).
-  - intros L S ty rest T. exact (step_refuses_big_length pb digits ty rest D L T S).
-Qed.
+     step lim pb (digits ++ tl) = Fail ValueError) /\
+  (blen digits <= lim -> SIZE_LIMIT < from_le128 digits ->
+     forall ty rest, (ty = LIST \/ ty = STRING) -> step lim pb (digits ++ ty :: rest) = Fail ValueError).
+Proof. exact refusals_on_decode. Qed.
 Print Assumptions oversized_prefix_or_length_refused_on_decode.
 
 (** the decoding loop terminates: the fuel [length buffer] given by [feed] is never exhausted *)
-Theorem fuel_never_exhausted : forall pb stack buf outs,
-  r_fuel_ok (run (length buf) pb stack buf outs) = true.
-Proof. intros pb stack buf outs. exact (runL_fuel_ok pb (length buf) stack buf outs (le_n _)). Qed.
+Theorem fuel_never_exhausted : forall lim pb stack buf outs,
+  r_fuel_ok (run lim (length buf) pb stack buf outs) = true.
+Proof. exact fuel_ok_lemma. Qed.
 Print Assumptions fuel_never_exhausted.
